@@ -353,7 +353,7 @@ class BMCI:
         xs = self.x[i_l:i_u][inds]
 
         ws_cum = ws.cumsum()
-        if ws_cum[-1] > 0.0:
+        if ws_cum.size > 0 and ws_cum[-1] > 0.0:
             ws_cum /= ws_cum[-1]
         else:
             ws_cum = np.nan
@@ -490,7 +490,7 @@ class BMCI:
 
             ws_cum = ws.cumsum()
 
-            if ws_cum[-1] > 0.0:
+            if ws_cum.size > 0 and ws_cum[-1] > 0.0:
                 ws_cum /= ws_cum[-1]
                 qs[i, :] = np.interp(taus, ws_cum, xs)
             else:
